@@ -38,10 +38,11 @@ impl Location {
 //@attr #[derive(Clone, Copy)]
 //@end
 
-/// R6: the type-argument list reduced to its range
-struct TypeArguments { location: Location }
 mod annotation {
   use super::*;
+//@extract crates/samlang-ast/src/source.rs :: mod annotation / struct TypeArguments
+//@keeppub
+//@end
 //@extract crates/samlang-ast/src/source.rs :: mod annotation / struct Id
 //@keeppub
 //@replace super::Id => super::Id ## R1: (unchanged) the identifier type of the enclosing module
@@ -82,7 +83,7 @@ mod annotation {
 
 // ---- the parser, reduced to what the two productions use
 #[derive(Clone, Copy)]
-enum TokenOp { Colon, Arrow, Comma, RightBrace, Semicolon, RightParenthesis, Other(u8) }
+enum TokenOp { Colon, Arrow, Comma, RightBrace, Semicolon, RightParenthesis, GreaterThan, Other(u8) }
 #[derive(Clone, Copy)]
 enum Keyword { If, Other(u8) }
 #[derive(Clone, Copy)]
@@ -115,7 +116,7 @@ mod utils {
   pub fn resolve_class(parser: &SourceParser, class_name: PStr) -> (r: ModuleReference) { unimplemented!() }
 }
 #[verifier::external_body]
-fn parse_optional_type_arguments(parser: &mut SourceParser) -> (r: Option<TypeArguments>) { unimplemented!() }
+fn parse_optional_type_arguments(parser: &mut SourceParser) -> (r: Option<annotation::TypeArguments>) { unimplemented!() }
 
 //@extract crates/samlang-parser/src/source_parser.rs :: mod type_parser / fn parse_identifier_annot
 //@ret r
@@ -172,7 +173,6 @@ mod expr {
 //@end
 //@extract crates/samlang-ast/src/source.rs :: mod expr / struct FieldAccess
 //@keeppub
-//@replace super::annotation::TypeArguments => super::TypeArguments ## R6: the type-argument list reduced to its range
 //@end
 //@extract crates/samlang-ast/src/source.rs :: mod expr / struct Call
 //@keeppub
@@ -487,6 +487,19 @@ fn parse_annotation(parser: &mut SourceParser) -> (r: annotation::T) { unimpleme
         && encloses(r.range(), peeked.0) && encloses(r.range(), f.return_type.range()),  // :function_annotation_range_runs_from_its_parenthesis_over_its_return_type
 //@end
 
+// ---- explicit type arguments `<A, B>` run from `<` to the token consumed as `>`
+//@extractblock crates/samlang-parser/src/source_parser.rs :: mod type_parser / fn parse_optional_type_arguments
+//@from let (end_loc, ending_associated_comments) =
+//@to arguments, })
+//@wrap fn type_arguments_node(parser: &mut SourceParser, start_loc: Location, start_associated_comments: CommentReference, arguments: Vec<annotation::T>) -> (r: Option<annotation::TypeArguments>)
+//@contract
+    ensures
+      r matches Some(t) && t.arguments == arguments && encloses(t.location, start_loc)
+        && exists|end: Location| t.location == #[trigger] joined(start_loc, end),  // :type_argument_list_range_runs_from_its_opening_to_its_closing_bracket
+//@before Some(annotation::TypeArguments {
+    assert(exists|end: Location| location == #[trigger] joined(start_loc, end));
+//@end
+
 // =====================================================================================
 // the language server's position -> node search: a name's range is the name, nothing more
 // =====================================================================================
@@ -511,7 +524,7 @@ enum LocationCoverSearchResult {
 }
 /// the search below the identifier (type arguments) is opaque; whatever it finds lies inside the type arguments
 #[verifier::external_body]
-fn search_optional_type_arguments(targs_opt: Option<&TypeArguments>, position: Position) -> (r: Option<LocationCoverSearchResult>)
+fn search_optional_type_arguments(targs_opt: Option<&annotation::TypeArguments>, position: Position) -> (r: Option<LocationCoverSearchResult>)
 { unimplemented!() }
 
 //@extract crates/samlang-services/src/location_cover.rs :: fn search_id_annotation
